@@ -589,7 +589,7 @@ bool qhasharr_remove_by_obj(qhasharr_t *tbl, const char *name, size_t namesize) 
  * slot index again. Please refer an example code.
  */
 bool qhasharr_remove_by_idx(qhasharr_t *tbl, int idx) {
-    if (idx < 0) {
+    if (idx < 0 || idx >= tbl->data->maxslots) {
         errno = EINVAL;
         return false;
     }
